@@ -1,13 +1,23 @@
 //go:build verif
 
 // Package c03: parser totality harnesses (overlay-only package, exported API only).
+//
+// C03: for every byte string, every parser terminates promptly and either reports an
+// explicit error or returns a well-formed result. Termination is checked through the
+// engine's step budget (an exceeded budget is replayed natively under a watchdog), panics are
+// reported by the engine as violations, and success is checked by vfWellFormed.
 package c03
 
 import (
 	"strings"
 
 	"github.com/evolbioinfo/goalign/align"
+	"github.com/evolbioinfo/goalign/io/clustal"
 	"github.com/evolbioinfo/goalign/io/fasta"
+	"github.com/evolbioinfo/goalign/io/nexus"
+	"github.com/evolbioinfo/goalign/io/partition"
+	"github.com/evolbioinfo/goalign/io/phylip"
+	"github.com/evolbioinfo/goalign/io/stockholm"
 )
 
 // vfMutate returns tmpl with the byte at pos replaced by a symbolic ASCII byte (0..127).
@@ -29,6 +39,24 @@ func vfFree(n int) string {
 	return string(b)
 }
 
+// vfLines deletes (dup=false) or duplicates (dup=true) line k of tmpl.
+func vfLines(tmpl string, k int, dup bool) string {
+	ls := strings.SplitAfter(tmpl, "\n")
+	var out []string
+	for i, l := range ls {
+		if i == k {
+			if dup {
+				out = append(out, l, l)
+			}
+			continue
+		}
+		out = append(out, l)
+	}
+	return strings.Join(out, "")
+}
+
+func vfNbLines(tmpl string) int { return len(strings.SplitAfter(tmpl, "\n")) }
+
 // vfWellFormed asserts the C03 post-condition for a successfully parsed alignment.
 func vfWellFormed(al align.Alignment) {
 	verifAssert(al != nil, "non-nil alignment on success")
@@ -47,42 +75,353 @@ func vfWellFormed(al align.Alignment) {
 	}
 }
 
-const fastaTmpl = ">s1\nACGT\nAC\n>s2 x\nAC-TAC\n"
+func vfWellFormedBag(sb align.SeqBag) {
+	verifAssert(sb != nil, "non-nil sequence set on success")
+	n := sb.NbSequences()
+	verifAssert(n >= 1, "success implies at least one sequence")
+	for i := 0; i < n; i++ {
+		s, ok := sb.GetSequenceCharById(i)
+		verifAssert(ok && len(s) >= 1, "no empty sequence")
+		ni, _ := sb.GetSequenceNameById(i)
+		for j := 0; j < i; j++ {
+			nj, _ := sb.GetSequenceNameById(j)
+			verifAssert(ni != nj, "names pairwise distinct")
+		}
+	}
+}
 
-// H_C03_fasta_mutate1: every single-byte mutation of a valid FASTA file parses to an error or a well-formed alignment.
-// bounds: template of 27 bytes, every position, replacement byte any of 0..127 (NUL included)
+// ------------------------------------------------------------------ drivers per format
+
+const (
+	fFasta = iota
+	fFastaUnalign
+	fPhylip
+	fPhylipStrict
+	fNexus
+	fClustal
+	fStockholm
+)
+
+func vfParse(format int, in string) {
+	// The Phylip/Clustal lexers end the process with a message on a lone carriage return
+	// (io.ExitWithMessage): an explicit, message-bearing error exit is accepted as "reports an
+	// explicit error"; what C03 excludes is a panic, a hang or a malformed success.
+	verifAllowExit()
+	switch format {
+	case fFasta:
+		al, err := fasta.NewParser(strings.NewReader(in)).Parse()
+		verifReach("parsed")
+		if err == nil {
+			vfWellFormed(al)
+		}
+	case fFastaUnalign:
+		sb, err := fasta.NewParser(strings.NewReader(in)).ParseUnalign()
+		verifReach("parsed")
+		if err == nil {
+			vfWellFormedBag(sb)
+		}
+	case fPhylip, fPhylipStrict:
+		al, err := phylip.NewParser(strings.NewReader(in), format == fPhylipStrict).Parse()
+		verifReach("parsed")
+		if err == nil && al != nil { // (nil, nil) is the documented end-of-stream marker
+			vfWellFormed(al)
+		}
+	case fNexus:
+		al, err := nexus.NewParser(strings.NewReader(in)).Parse()
+		verifReach("parsed")
+		if err == nil {
+			vfWellFormed(al)
+		}
+	case fClustal:
+		al, err := clustal.NewParser(strings.NewReader(in)).Parse()
+		verifReach("parsed")
+		if err == nil {
+			vfWellFormed(al)
+		}
+	case fStockholm:
+		al, err := stockholm.NewParser(strings.NewReader(in)).Parse()
+		verifReach("parsed")
+		if err == nil {
+			vfWellFormed(al)
+		}
+	}
+}
+
+// Templates: output of goalign's own writers for a 2x12 alignment (and a multi-block one), plus
+// hand-written variants with comments / markup.
+const (
+	tFasta     = ">s1\nACGTACGTAC-T\n>seq2\nACGAACGTTCGT\n"
+	tPhylip    = "   2   12\ns1  ACGTACGTAC -T\nseq2  ACGAACGTTC GT\n"
+	tPhylipS   = "   2   12\ns1        ACGTACGTAC -T\nseq2      ACGAACGTTC GT\n"
+	tPhylipBlk = "   2   25\na  ACGTACGTAC GTACGTACGT\nb  ACGTACGTAC GTACGTACGT\n\n   ACGTA\n   ACGTA\n"
+	tNexus     = "#NEXUS\nbegin data;\ndimensions ntax=2 nchar=12;\nformat datatype=dna;\nmatrix\ns1 ACGTACGTAC-T\nseq2 ACGAACGTTCGT\n;\nend;\n"
+	tNexusCmt  = "#NEXUS\n[c]\nbegin taxa;\ndimensions ntax=2;\ntaxlabels a b;\nend;\nbegin data;\ndimensions ntax=2 nchar=3;\nformat datatype=dna gap=- missing=?;\nmatrix\na AC-\nb A?G\n;\nend;\n"
+	tClustal   = "CLUSTAL W (goalign version Unset)\n\ns1     ACGTACGTAC-T 12\nseq2   ACGAACGTTCGT 12\n       *** **** * *\n"
+	tStockholm = "# STOCKHOLM 1.0\n#=GF ID   Goalign generated alignment\ns1\tACGTACGTAC-T\nseq2\tACGAACGTTCGT\n//"
+	tStockMark = "# STOCKHOLM 1.0\n#=GF ID x\n#=GS a AC 1\na AC-\n#=GR a SS ...\nb ACG\n#=GC SS_cons ...\n//\n"
+)
+
+func vfTemplate(format, variant int) string {
+	switch format {
+	case fFasta, fFastaUnalign:
+		return tFasta
+	case fPhylip:
+		if variant == 1 {
+			return tPhylipBlk
+		}
+		return tPhylip
+	case fPhylipStrict:
+		return tPhylipS
+	case fNexus:
+		if variant == 1 {
+			return tNexusCmt
+		}
+		return tNexus
+	case fClustal:
+		return tClustal
+	case fStockholm:
+		if variant == 1 {
+			return tStockMark
+		}
+		return tStockholm
+	}
+	return ""
+}
+
+func vfNbVariants(format int) int {
+	switch format {
+	case fPhylip, fNexus, fStockholm:
+		return 2
+	}
+	return 1
+}
+
+// vfRunMutate: one symbolic ASCII byte at every position of every template of the format.
+func vfRunMutate(format int) {
+	tmpl := vfTemplate(format, nondetRange(0, vfNbVariants(format)-1))
+	pos := nondetRange(0, len(tmpl)-1)
+	vfParse(format, vfMutate(tmpl, pos))
+}
+
+// vfRunTruncate: every prefix of every template.
+func vfRunTruncate(format int) {
+	tmpl := vfTemplate(format, nondetRange(0, vfNbVariants(format)-1))
+	n := nondetRange(0, len(tmpl))
+	vfParse(format, tmpl[:n])
+}
+
+// vfRunLines: every single line deleted or duplicated.
+func vfRunLines(format int) {
+	tmpl := vfTemplate(format, nondetRange(0, vfNbVariants(format)-1))
+	k := nondetRange(0, vfNbLines(tmpl)-1)
+	dup := nondetRange(0, 1) == 1
+	vfParse(format, vfLines(tmpl, k, dup))
+}
+
+// H_C03_fasta_mutate1: single-byte mutations of a valid FASTA file.
+// bounds: 36-byte template, every position, replacement byte any of 0..127 (NUL = the lexers' EOF sentinel included)
 // outside: two simultaneous mutations, longer files, bytes >= 0x80
-func H_C03_fasta_mutate1() {
-	pos := nondetRange(0, len(fastaTmpl)-1)
-	in := vfMutate(fastaTmpl, pos)
-	al, err := fasta.NewParser(strings.NewReader(in)).Parse()
-	verifReach("parsed")
-	if err == nil {
-		verifReach("accepted")
-		vfWellFormed(al)
-	}
-}
+//verif: maxsteps=3000000
+func H_C03_fasta_mutate1() { vfRunMutate(fFasta) }
 
-// H_C03_fasta_truncate: every truncation of the template.
-// bounds: all prefixes of the 27-byte template
-func H_C03_fasta_truncate() {
-	n := nondetRange(0, len(fastaTmpl))
-	al, err := fasta.NewParser(strings.NewReader(fastaTmpl[:n])).Parse()
-	verifReach("parsed")
-	if err == nil {
-		vfWellFormed(al)
-	}
-}
+// H_C03_fastaunalign_mutate1: same through ParseUnalign.
+// bounds: as H_C03_fasta_mutate1
+//verif: maxsteps=3000000
+func H_C03_fastaunalign_mutate1() { vfRunMutate(fFastaUnalign) }
 
-// H_C03_fasta_free: every ASCII input of up to 4 bytes.
-// bounds: length 0..4, every byte 0..127
+// H_C03_phylip_mutate1: single-byte mutations of relaxed Phylip files (one-block and interleaved).
+// bounds: 2 templates (46 and 66 bytes), every position, byte 0..127
+// outside: two simultaneous mutations
+//verif: maxsteps=3000000
+func H_C03_phylip_mutate1() { vfRunMutate(fPhylip) }
+
+// H_C03_phylipstrict_mutate1: single-byte mutations of a strict Phylip file.
+// bounds: 1 template, every position, byte 0..127
+//verif: maxsteps=3000000
+func H_C03_phylipstrict_mutate1() { vfRunMutate(fPhylipStrict) }
+
+// H_C03_nexus_mutate1: single-byte mutations of Nexus files (data block; taxa block + comment).
+// bounds: 2 templates (~110 and ~160 bytes), every position, byte 0..127
+//verif: maxsteps=3000000
+func H_C03_nexus_mutate1() { vfRunMutate(fNexus) }
+
+// H_C03_clustal_mutate1: single-byte mutations of a Clustal file.
+// bounds: 1 template, every position, byte 0..127
+//verif: maxsteps=3000000
+func H_C03_clustal_mutate1() { vfRunMutate(fClustal) }
+
+// H_C03_stockholm_mutate1: single-byte mutations of Stockholm files (plain; with #=GS/#=GR/#=GC markup).
+// bounds: 2 templates, every position, byte 0..127
+//verif: maxsteps=3000000
+func H_C03_stockholm_mutate1() { vfRunMutate(fStockholm) }
+
+// H_C03_truncate: every truncation of every template of every format.
+// bounds: 7 parsers x their templates x every prefix length
+//verif: maxsteps=3000000
+func H_C03_truncate() { vfRunTruncate(nondetRange(fFasta, fStockholm)) }
+
+// H_C03_lines: every single line deleted or duplicated, every template of every format.
+// bounds: 7 parsers x their templates x every line x {delete, duplicate}
+//verif: maxsteps=3000000
+func H_C03_lines() { vfRunLines(nondetRange(fFasta, fStockholm)) }
+
+// H_C03_fasta_free: every ASCII input of up to 4 bytes through the FASTA parsers.
+// bounds: length 0..4 (quick), every byte 0..127
+// outside: longer inputs
+//verif: maxsteps=3000000
 func H_C03_fasta_free() {
 	n := nondetRange(0, 4)
-	in := vfFree(n)
-	al, err := fasta.NewParser(strings.NewReader(in)).Parse()
+	vfParse(nondetRange(fFasta, fFastaUnalign), vfFree(n))
+}
+
+// H_C03_phylip_free: every ASCII input of up to 4 bytes through both Phylip parsers.
+// bounds: length 0..4, every byte 0..127
+//verif: maxsteps=3000000
+func H_C03_phylip_free() {
+	n := nondetRange(0, 4)
+	vfParse(nondetRange(fPhylip, fPhylipStrict), vfFree(n))
+}
+
+// H_C03_other_free: every ASCII input of up to 3 bytes through Nexus, Clustal and Stockholm.
+// bounds: length 0..3, every byte 0..127
+//verif: maxsteps=3000000
+func H_C03_other_free() {
+	n := nondetRange(0, 3)
+	vfParse(nondetRange(fNexus, fStockholm), vfFree(n))
+}
+
+// H_C03_suffix_free: a valid header followed by up to 3 arbitrary bytes (unterminated comments,
+// markup at end of file, truncated blocks).
+// bounds: fixed prefixes "#NEXUS\n", "#NEXUS\nbegin data;\n", "# STOCKHOLM 1.0\n", "CLUSTAL W\n\n", then 0..3 symbolic bytes 0..127
+//verif: maxsteps=3000000
+func H_C03_suffix_free() {
+	k := nondetRange(0, 3)
+	n := nondetRange(0, 3)
+	switch k {
+	case 0:
+		vfParse(fNexus, "#NEXUS\n"+vfFree(n))
+	case 1:
+		vfParse(fNexus, "#NEXUS\nbegin data;\n"+vfFree(n))
+	case 2:
+		vfParse(fStockholm, "# STOCKHOLM 1.0\n"+vfFree(n))
+	case 3:
+		vfParse(fClustal, "CLUSTAL W\n\n"+vfFree(n))
+	}
+}
+
+// vfNumeral returns a decimal numeral: one symbolic digit, two symbolic digits, or one of a
+// list of concrete boundary values (symbolic 19-digit numerals make strconv's overflow
+// arithmetic intractable for the solver; the concrete list covers the magnitudes that matter:
+// allocation-size, int32, int64 overflow).
+func vfNumeral() string {
+	k := nondetRange(0, 7)
+	switch k {
+	case 0:
+		d := nondetByte()
+		assume(d >= '0' && d <= '9')
+		return string([]byte{d})
+	case 1:
+		d1, d2 := nondetByte(), nondetByte()
+		assume(d1 >= '0' && d1 <= '9' && d2 >= '0' && d2 <= '9')
+		return string([]byte{d1, d2})
+	case 2:
+		return "3000000000"
+	case 3:
+		return "9000000000000000000"
+	case 4:
+		return "9223372036854775807"
+	case 5:
+		return "9223372036854775808"
+	case 6:
+		return "99999999999999999999"
+	}
+	return "4294967296"
+}
+
+// H_C03_phylip_header: header numerals replaced by symbolic decimal strings.
+// bounds: number of sequences and length each: 1 symbolic digit, 2 symbolic digits, or one of 3000000000, 9000000000000000000, 2^63-1, 2^63, 99999999999999999999, 2^32; body of the 2x12 template
+// outside: other numerals
+//verif: maxsteps=3000000
+func H_C03_phylip_header() {
+	strict := nondetRange(0, 1) == 1
+	in := "   " + vfNumeral() + "   " + vfNumeral() + "\ns1  ACGTACGTAC -T\nseq2  ACGAACGTTC GT\n"
+	al, err := phylip.NewParser(strings.NewReader(in), strict).Parse()
+	verifReach("parsed")
+	if err == nil && al != nil {
+		vfWellFormed(al)
+	}
+}
+
+// H_C03_phylip_multi: ParseMultiple on a stream of two alignments with one mutated byte always
+// closes the channel and reports well-formed alignments or an error.
+// bounds: stream = template twice (92 bytes), one symbolic byte at every position
+//verif: maxsteps=3000000
+func H_C03_phylip_multi() {
+	tmpl := tPhylip + tPhylip
+	pos := nondetRange(0, len(tmpl)-1)
+	in := vfMutate(tmpl, pos)
+	ch := &align.AlignChannel{Achan: make(chan align.Alignment, 15)}
+	phylip.NewParser(strings.NewReader(in), false).ParseMultiple(ch)
+	verifReach("returned")
+	cnt := 0
+	for al := range ch.Achan {
+		vfWellFormed(al)
+		cnt++
+	}
+	verifAssert(cnt <= 2, "no more alignments than written")
+}
+
+// vfPartitionOK: the partition map covers exactly the declared length with in-range codes.
+func vfPartitionOK(ps *align.PartitionSet, L int) {
+	verifAssert(ps != nil, "non-nil partition set on success")
+	verifAssert(ps.AliLength() == L, "map over the declared length")
+	np := ps.NPartitions()
+	verifAssert(np >= 1, "at least one partition")
+	for p := 0; p < L; p++ {
+		c := ps.Partition(p)
+		verifAssert(c >= -1 && c < np, "partition code in range")
+	}
+}
+
+const tPartition = "M1,p1=1-3\nM2,p2=4-6/2,5-6/2\n"
+
+// H_C03_partition_mutate1: single-byte mutations of a partition file.
+// bounds: 28-byte template, every position, byte 0..127, declared length 6
+//verif: maxsteps=3000000
+func H_C03_partition_mutate1() {
+	pos := nondetRange(0, len(tPartition)-1)
+	ps, err := partition.NewParser(strings.NewReader(vfMutate(tPartition, pos))).Parse(6)
 	verifReach("parsed")
 	if err == nil {
-		verifReach("accepted")
-		vfWellFormed(al)
+		vfPartitionOK(ps, 6)
+	}
+}
+
+// H_C03_partition_numbers: interval bounds and modulo replaced by symbolic decimal strings.
+// bounds: "M,p=<a>-<b>/<m>" with a,b,m each: 1 or 2 symbolic digits or a concrete boundary numeral (see vfNumeral), declared length 4
+//verif: maxsteps=3000000
+func H_C03_partition_numbers() {
+	in := "M,p=" + vfNumeral() + "-" + vfNumeral() + "/" + vfNumeral() + "\n"
+	ps, err := partition.NewParser(strings.NewReader(in)).Parse(4)
+	verifReach("parsed")
+	if err == nil {
+		vfPartitionOK(ps, 4)
+	}
+}
+
+// H_C03_addrange: PartitionSet.AddRange with arbitrary integers never panics and never loops.
+// bounds: alignment length 1..3, start/end/modulo arbitrary 64-bit integers
+//verif: maxsteps=3000000
+func H_C03_addrange() {
+	L := nondetRange(1, 3)
+	ps := align.NewPartitionSet(L)
+	start, end, modulo := nondetInt(), nondetInt(), nondetInt()
+	err := ps.AddRange("p", "M", start, end, modulo)
+	verifReach("returned")
+	if err == nil {
+		for p := 0; p < L; p++ {
+			c := ps.Partition(p)
+			verifAssert(c >= -1 && c < 1, "partition code in range")
+		}
 	}
 }
